@@ -35,6 +35,8 @@ Step(rules, e, h2) ==
   /\ hst' = h2
   /\ l' = l + 1
 
+\* short block size of the link a handle is in (0 when no stream description was logged for its file: damaged-file families)
+HalfBs0(F, s) == LET k == LinkOf(F, s.pos) IN IF k \in 1..Len(F.links) THEN Shr(F.links[k].bs0, s.hs) ELSE 0
 Next ==
   /\ l <= Len(Tr)
   /\ LET e == Tr[l] IN
@@ -62,8 +64,8 @@ Next ==
                                 \* the lap region of the second handle: min of the two half short blocks (at most its own when the first position is unknown)
                                 ![e.h2] = [@ EXCEPT !.lap = IF e.ret = 0 /\ s2.pos >= 0 /\ s2.open
                                                             THEN (IF s1.pos >= 0 /\ s1.open
-                                                                  THEN Min({Shr(F1.links[LinkOf(F1,s1.pos)].bs0, s1.hs), Shr(F2.links[LinkOf(F2,s2.pos)].bs0, s2.hs)})
-                                                                  ELSE Shr(F2.links[LinkOf(F2,s2.pos)].bs0, s2.hs)) \div 2
+                                                                  THEN Min({HalfBs0(F1, s1), HalfBs0(F2, s2)})
+                                                                  ELSE HalfBs0(F2, s2)) \div 2
                                                             ELSE 0,
                                                     !.pos = IF e.ret = 0 \/ e.tell = s2.pos THEN @ ELSE -1]])
             /\ UNCHANGED <<fidx, scn>>
